@@ -32,9 +32,9 @@ RULE = ("cases = (a) direct requests get_func_moment(dist, {Id:a,Sin:b,Cos:c}|{I
         "moment was decided (rejected / answered); distinct = distinct (request | program text, goals, mode)")
 ASSUMPTIONS = [
     "mpmath tanh-sinh quadrature at 50 digits on the densities written in polarmon/ref/laws.py (self-tested against closed-form raw moments); "
-    "each value is recomputed on a refined partition and the difference enters the tolerance (10x) — a case whose oracle error estimate exceeds 1e-20 relative is inconclusive",
+    "in the direct sweep each value is recomputed at 75 digits on a refined partition with extended tails and the two must agree to 1e-24 (else inconclusive)",
     "documented rounding of default mode = 20 significant digits of each functional moment (convert_func_moment: Rational(N(m, 20))): tolerance 1e-17 relative per moment, "
-    "1e-15 relative to the magnitude of the contributing terms for closed forms; exact mode: 1e-30 relative (direct) / 1e-25 (closed forms, limited by the quadrature)",
+    "1e-15 relative to the magnitude of the contributing terms for closed forms; exact mode: 1e-30 relative against a 75-digit quadrature (direct sweep) / 1e-22 for the values seen by the hook during program analysis and for closed forms (limited by the 50-digit primary quadrature, worst observed error 2e-29)",
     "analytic existence domain of E[e^{dX}]: DistExp d < rate, Gamma d < 1/scale, Laplace |d| < 1/b, everywhere for the other families",
     "language semantics of ref/engine.py for the program-level cases; sympy evaluates Polar's returned expression correctly to 60 digits",
     "n ranges over 0..3 for programs",
@@ -89,10 +89,60 @@ def _patch_engine_mono_order():
     E._mono_mul = _mono_mul
 
 
+COUNTS = {}
+_counters_installed = False
+
+
+def _install_counters():
+    """counting wrappers (observation only) on the anchored Polar functions; COUNTS is reset per case"""
+    global _counters_installed
+    if _counters_installed:
+        return
+    _counters_installed = True
+    import functools
+    from program.assignment import FunctionalAssignment as FA, DistAssignment
+    from program.transformer.update_info_transformer import UpdateInfoTransformer
+    from recurrences.rec_builder import RecBuilder
+    import program.distribution as D
+
+    def count(name):
+        COUNTS[name] = COUNTS.get(name, 0) + 1
+
+    def wrap_plain(cls, attr, label):
+        orig = cls.__dict__.get(attr)
+        if orig is None:
+            return
+        if isinstance(orig, classmethod):
+            f = orig.__func__
+
+            @functools.wraps(f)
+            def w(c, *a, **k):
+                count(label)
+                return f(c, *a, **k)
+            setattr(cls, attr, classmethod(w))
+        else:
+            @functools.wraps(orig)
+            def w(self, *a, **k):
+                count(label)
+                return orig(self, *a, **k)
+            setattr(cls, attr, w)
+
+    for attr in ("get_trig_moment", "get_exp_moment", "convert_func_moment", "get_moment"):
+        wrap_plain(FA, attr, "FunctionalAssignment." + attr)
+    wrap_plain(DistAssignment, "_get_mixed_func_moment", "DistAssignment._get_mixed_func_moment")
+    wrap_plain(UpdateInfoTransformer, "_set_dists_for_func_assignments", "UpdateInfoTransformer._set_dists_for_func_assignments")
+    wrap_plain(RecBuilder, "_replace_assign", "RecBuilder._replace_assign")
+    for cname in ("Bernoulli", "Normal", "Uniform", "DiscreteUniform", "Laplace", "Exponential", "TruncNormal", "Beta", "Gamma"):
+        cls = getattr(D, cname)
+        for attr in ("cf", "mgf", "mgf_exists_at"):
+            wrap_plain(cls, attr, f"{cname}.{attr}")
+
+
 def worker_init(tier):
     P.load()
     mp.mp.dps = 50
     _patch_engine_mono_order()
+    _install_counters()
 
 
 # ------------------------------------------------------------------------------------------------ oracle
@@ -109,46 +159,59 @@ def law_of(fam, ps):
     return (fam,) + tuple(ps)
 
 
-def _second_quadrature(law, a, b, c, d):
-    """the same expectation on a refined partition (all break points of the primary plus mid points plus a shifted pi/2
-    lattice for oscillatory integrands); Beta: the upper half is integrated in u = scale - x so that (1-x/scale)**(b-1) does
+def _second_quadrature(law, a, b, c, d, dps=75):
+    """high-precision re-evaluation of the same expectation (used as the reference in exact mode): working precision `dps`,
+    refined partition (break points of the primary + mid points + a shifted pi/2 lattice for oscillatory integrands),
+    extra break points far out in infinite tails (the primary leaves [40b, oo) of a Laplace tail to a single tanh-sinh
+    panel, which limits it to ~1e-29), Beta: the upper half is integrated in u = scale - x so that (1-x/scale)**(b-1) does
     not suffer cancellation near the end point"""
-    f = laws.pdf(law)
+    with mp.workdps(dps):
+        f = laws.pdf(law)
 
-    def h(x):
-        return x ** a * mp.sin(x) ** b * mp.cos(x) ** c * mp.exp(d * x)
+        def h(x):
+            return x ** a * mp.sin(x) ** b * mp.cos(x) ** c * mp.exp(d * x)
 
-    pts = laws._quad_points(law)
-    fin = [p for p in pts if mp.isfinite(p)]
-    new = set(fin)
-    for u, v in zip(fin, fin[1:]):
-        new.add((u + v) / 2)
-    if b + c > 0:
+        pts = laws._quad_points(law)
+        fin = [+p for p in pts if mp.isfinite(p)]
+        new = set(fin)
+        for u, v in zip(fin, fin[1:]):
+            new.add((u + v) / 2)
         lo, hi = fin[0], fin[-1]
-        step = mp.pi / 2
-        n = int((hi - lo) / step) + 1
-        if n <= 400:
-            for j in range(n):
-                t = lo + mp.pi / 4 + j * step
-                if lo < t < hi:
-                    new.add(t)
-    fin2 = sorted(new)
-    if law[0] == "Beta":
-        A, B, sc = [_mpf(p) for p in law[1:]]
-        cB = 1 / (mp.beta(A, B) * sc)
-        half = sc / 2
-        left = [p for p in fin2 if p <= half]
-        if left[-1] != half:
-            left.append(half)
-        v1 = mp.quad(lambda x: h(x) * f(x), left)
-        v2 = mp.quad(lambda u: h(sc - u) * cB * ((sc - u) / sc) ** (A - 1) * (u / sc) ** (B - 1), left)
-        return v1 + v2
-    full = ([pts[0]] if not mp.isfinite(pts[0]) else []) + fin2 + ([pts[-1]] if not mp.isfinite(pts[-1]) else [])
-    return mp.quad(lambda x: h(x) * f(x), full)
+        if b + c > 0:
+            step = mp.pi / 2
+            n = int((hi - lo) / step) + 1
+            if n <= 400:
+                for j in range(n):
+                    t = lo + mp.pi / 4 + j * step
+                    if lo < t < hi:
+                        new.add(t)
+        width = hi - lo
+        inf_lo, inf_hi = not mp.isfinite(pts[0]), not mp.isfinite(pts[-1])
+        for k in (1, 2, 4, 8):
+            if inf_hi:
+                new.add(hi + k * width / 2)
+            if inf_lo:
+                new.add(lo - k * width / 2)
+        fin2 = sorted(new)
+        if law[0] == "Beta":
+            A, B, sc = [_mpf(p) for p in law[1:]]
+            cB = 1 / (mp.beta(A, B) * sc)
+            half = sc / 2
+            left = [p for p in fin2 if p <= half]
+            if left[-1] != half:
+                left.append(half)
+            v1 = mp.quad(lambda x: h(x) * f(x), left)
+            v2 = mp.quad(lambda u: h(sc - u) * cB * ((sc - u) / sc) ** (A - 1) * (u / sc) ** (B - 1), left)
+            return +(v1 + v2)
+        full = ([pts[0]] if inf_lo else []) + fin2 + ([pts[-1]] if inf_hi else [])
+        return +mp.quad(lambda x: h(x) * f(x), full)
 
 
 def oracle_mixed(law, a, b, c, d, cross=True):
-    """(value, abs error estimate) of E[X^a sin^b X cos^c X e^{dX}]; raises laws.Divergent"""
+    """(value, abs error bound used in the tolerance) of E[X^a sin^b X cos^c X e^{dX}]; raises laws.Divergent.
+    cross=False: the primary oracle laws.mixed_moment (50 digits; accurate to ~1e-29 relative in the worst observed case,
+    an oscillatory Laplace/Gamma tail) with an error allowance of 1e-26; cross=True: additionally the 75-digit
+    re-evaluation, which becomes the reference (allowance 1e-36); the two must agree to 1e-24 or OracleDisagree is raised"""
     v = laws.mixed_moment(law, a, b, c, d)
     if laws.is_discrete(law):
         mag = mp.mpf(0)
@@ -156,12 +219,15 @@ def oracle_mixed(law, a, b, c, d, cross=True):
             mag += _mpf(p) * abs(_mpf(x)) ** a * mp.exp(d * _mpf(x))
         return v, mp.mpf(10) ** -47 * max(1, mag)
     if not cross:
-        return v, mp.mpf(10) ** -40 * max(1, abs(v))
+        return v, mp.mpf(10) ** -26 * max(1, abs(v))
     v2 = _second_quadrature(law, a, b, c, d)
-    err = abs(v - v2) + mp.mpf(10) ** -45 * max(1, abs(v))
-    if law[0] == "Beta":
-        v = v2   # the reflected evaluation is the more accurate one
-    return v, err
+    if abs(v - v2) > mp.mpf(10) ** -24 * max(abs(v2), mp.mpf(10) ** -6):
+        raise OracleDisagree(f"{mp.nstr(v, 30)} vs {mp.nstr(v2, 30)}")
+    return v2, mp.mpf(10) ** -36 * max(1, abs(v2))
+
+
+class OracleDisagree(Exception):
+    pass
 
 
 def polar_number(r):
@@ -238,6 +304,8 @@ def judge_request(law, a, b, c, d, outcome, exact, cross):
         exists = True
     except laws.Divergent:
         ref, err, exists = None, None, False
+    except OracleDisagree as e:
+        return {"status": "skip", "reason": "oracle-precision", "cmp": 0, "nontrivial": False, "info": {"oracle": str(e)[:100]}}
     if outcome[0] == "exc":
         e = outcome[1]
         rej = type(e).__name__ == "FunctionalAssignmentException"
@@ -252,7 +320,7 @@ def judge_request(law, a, b, c, d, outcome, exact, cross):
         pv = polar_number(outcome[1])
     except (P.NotANumber, P.Leftover) as e:
         return {"status": "violated", "cmp": 1, "nontrivial": True, "info": info,
-                "viol": {"kind": "func-moment-not-a-number", "key": "func-moment-not-a-number",
+                "viol": {"kind": "func-moment-not-a-number", "key": None,
                          "detail": f"{law} powers Id={a} Sin={b} Cos={c} Exp={d}: Polar returned {str(outcome[1])[:120]} ({e})"}}
     info["polar"] = P.val_str(pv)[:40]
     if not exists:
@@ -261,7 +329,8 @@ def judge_request(law, a, b, c, d, outcome, exact, cross):
                          "key": "trig-exp-mix-exp-factor-dropped" if is_mix else "nonexistent-exp-moment-answered",
                          "detail": f"E[X^{a} sin^{b} cos^{c} e^({d}X)] does not exist for {law} but Polar returned {P.val_str(pv)[:40]}"}}
     info["truth"] = mp.nstr(ref, 30)
-    rel_tol = 1e-30 if exact else 1e-17
+    # exact mode: 1e-30 against the 75-digit reference (direct sweep); 1e-22 when only the 50-digit primary oracle is used
+    rel_tol = (1e-30 if cross else 1e-22) if exact else 1e-17
     if abs(ref) > 0 and 10 * err > mp.mpf(10) ** -20 * max(abs(ref), mp.mpf(10) ** -12):
         return {"status": "skip", "reason": "oracle-precision", "cmp": 0, "nontrivial": False, "info": dict(info, err=mp.nstr(err, 3))}
     ok, tol = close(pv, ref, rel_tol, err)
@@ -300,7 +369,7 @@ def judge_const(func, arg_str, k, outcome, exact):
         pv = polar_number(outcome[1])
     except (P.NotANumber, P.Leftover) as e:
         return {"status": "violated", "cmp": 1, "nontrivial": True, "info": info,
-                "viol": {"kind": "const-func-moment-not-a-number", "key": "func-moment-not-a-number", "detail": f"{func}({arg_str})**{k}: {e}"}}
+                "viol": {"kind": "const-func-moment-not-a-number", "key": None, "detail": f"{func}({arg_str})**{k}: {e}"}}
     info["polar"] = P.val_str(pv)[:40]
     ok, tol = close(pv, ref, 1e-30 if exact else 1e-17, mp.mpf(10) ** -48 * max(1, abs(ref)))
     if ok:
@@ -330,9 +399,11 @@ def _base(case):
 
 
 def run_case(case, tier):
-    if case["kind"] == "program":
-        return run_program(case, tier)
-    return run_direct(case, tier)
+    COUNTS.clear()
+    res = run_program(case, tier) if case["kind"] == "program" else run_direct(case, tier)
+    for k, v in COUNTS.items():
+        res["events"][k] = res["events"].get(k, 0) + v
+    return res
 
 
 def run_direct(case, tier):
@@ -350,7 +421,6 @@ def run_direct(case, tier):
             except Exception as e:
                 outcome = ("exc", e)
             res["events"]["FunctionalAssignment.get_const_moment"] = 1
-            res["events"]["FunctionalAssignment.convert_func_moment"] = 1
             j = judge_const(case["func"], case["arg"], case["k"], outcome, exact)
             req = f"{case['func']}({case['arg']})**{case['k']}"
         else:
@@ -375,11 +445,6 @@ def run_direct(case, tier):
             except Exception as e:
                 outcome = ("exc", e)
             res["events"]["FunctionalAssignment.get_func_moment"] = 1
-            if b or c:
-                res["events"]["FunctionalAssignment.get_trig_moment"] = 1
-            elif d:
-                res["events"]["FunctionalAssignment.get_exp_moment"] = 1
-                res["events"][f"{type(dist).__name__}.mgf_exists_at"] = 1
             j = judge_request(law, a, b, c, d, outcome, exact, cross=True)
             req = f"{case['fam']}({', '.join(case['ps'])}) {powers}"
     finally:
@@ -468,14 +533,26 @@ def term_scale(eng, dist, monomial):
 
 
 def _program_structure(program):
-    """diagnostic predicates over Polar's normalised program"""
-    out = {"cond_func_keeps_self": False}
+    """diagnostic predicates over Polar's normalised program: does a functional variable's *previous* value occur where the
+    recurrence builder will still see the variable as a placeholder for the new functional moment?
+      (a) a conditioned functional assignment whose default is the variable itself (`if b == 1: s = Sin(x) end`), or
+      (b) a statement between the draw of the argument and the functional assignment reads the functional variable."""
+    out = {"old_value_visible": False}
     try:
         from program.assignment import FunctionalAssignment as FA
         from program.condition import TrueCond
-        for a in list(program.initial) + list(program.loop_body):
-            if isinstance(a, FA) and not isinstance(a.condition, TrueCond) and str(a.default) == str(a.variable):
-                out["cond_func_keeps_self"] = True
+        for block in (list(program.initial), list(program.loop_body)):
+            pos = {str(a.variable): i for i, a in enumerate(block)}
+            for i, a in enumerate(block):
+                if not isinstance(a, FA):
+                    continue
+                if not isinstance(a.condition, TrueCond) and str(a.default) == str(a.variable):
+                    out["old_value_visible"] = True
+                arg = str(a.argument)
+                if arg in pos and pos[arg] < i:
+                    for b in block[pos[arg] + 1:i]:
+                        if str(a.variable) in {str(x) for x in b.get_free_symbols()}:
+                            out["old_value_visible"] = True
     except Exception:
         pass
     return out
@@ -521,7 +598,6 @@ def run_program(case, tier):
             try:
                 program, rb = P.prepare(case["text"])
                 res["events"]["normalize_program"] = 1
-                res["events"]["UpdateInfoTransformer._set_dists_for_func_assignments"] = 2
             except Exception as e:
                 res.update(verdict="inconclusive", reason="refused", refusal=P.refusal_key(e))
                 return res
@@ -537,8 +613,7 @@ def run_program(case, tier):
         P.reset_settings()
     res["events"]["FunctionalAssignment.get_func_moment"] = len(rec.calls)
     res["events"]["FunctionalAssignment.get_const_moment"] = len(rec.const_calls)
-    res["events"]["DistAssignment._get_mixed_func_moment"] = len(rec.calls)
-    struct = _program_structure(program)
+    struct = _program_structure(program) if program is not None else {}
 
     # (1) postcondition of every functional moment the analysis used
     call_keys = set()
@@ -637,7 +712,7 @@ def run_program(case, tier):
                 break
             rvm = _mpf(rv)
             S = max(1, abs(rvm), sc[n])
-            tol = (mp.mpf(10) ** -25 if exact else mp.mpf(10) ** -15) * S
+            tol = (mp.mpf(10) ** -22 if exact else mp.mpf(10) ** -15) * S
             if abs(_mpf(pv) - rvm) > tol:
                 bad = {"kind": "wrong-moment", "n": n, "polar": P.val_str(pv)[:45], "ref": P.val_str(rv)[:45],
                        "rel": float(abs(_mpf(pv) - rvm) / S),
@@ -671,6 +746,6 @@ def _program_key(case, bad, call_keys, struct):
             return "const-func-decimal-literal-evaluated-in-double"
     if keys:
         return keys[0]
-    if struct.get("cond_func_keeps_self"):
-        return "conditioned-func-assign-old-value-replaced-by-func-moment"
+    if struct.get("old_value_visible"):
+        return "func-var-placeholder-conflated-with-old-value"
     return None
